@@ -10,8 +10,9 @@ package main
 // `cdata:hello -cdata:hello` were normalised to the query that matches every stream.
 //
 // Rule (typed AST, sibling agreement): in package query a function that returns a ConditionsSet variable it appends to
-// in a loop, where an append is skipped (or admitted) under a test that calls impossible(), tests `len(<variable>) == 0`
-// in a condition whose branch returns something else, in front of every return of the variable.
+// in a loop, where an append is skipped (or admitted) under a test that calls impossible(), compares `len(<variable>)` with 0
+// (in a condition or in the definition of a boolean) and has, besides the return of the variable, a return of a freshly
+// built set.
 
 import (
 	"fmt"
@@ -22,7 +23,7 @@ import (
 
 func init() {
 	register("C03",
-		"C03-n (typed AST, sibling agreement): in package query a function that returns a ConditionsSet variable it appends to in a loop, where an iteration's append is skipped or admitted under a test that calls impossible(), has — in front of every return of that variable — a condition `len(variable) == 0` whose branch returns something else. The empty set means 'no restriction'; a set from which every alternative was dropped as contradictory means 'no stream'. ConditionsSet.Clean makes the distinction; a product or filter that drops impossible alternatives without it turns `protocol:tcp protocol:udp` into the query that matches everything.",
+		"C03-n (typed AST, sibling agreement): in package query a function that returns a ConditionsSet variable it appends to in a loop, where an iteration's append is skipped or admitted under a test that calls impossible(), compares `len(variable)` with 0 in a condition (or in the definition of a boolean) and has a return of a freshly built set besides the return of the variable. The empty set means 'no restriction'; a set from which every alternative was dropped as contradictory means 'no stream'. ConditionsSet.Clean makes the distinction; a product or filter that drops impossible alternatives without it turns `protocol:tcp protocol:udp` into the query that matches everything.",
 		func(p *Prog, r *Res) {
 			const rule = "C03-n dropped-alternatives-leave-impossible-not-empty"
 			r.Rule(rule + ": a set built by leaving out impossible alternatives handles the case that none is left")
@@ -82,12 +83,42 @@ func init() {
 							return true
 						}
 						c, ok := ast.Unparen(as.Rhs[0]).(*ast.CallExpr)
-						if !ok || !isBuiltin(info, c, "append") || len(c.Args) < 2 {
+						if !ok {
 							return true
 						}
 						o := identObj(info, as.Lhs[0])
-						if o != nil && identObj(info, c.Args[0]) == o && isCS(o.Type()) {
+						if o == nil || !isCS(o.Type()) {
+							return true
+						}
+						if isBuiltin(info, c, "append") && len(c.Args) >= 2 && identObj(info, c.Args[0]) == o {
 							filtered[o] = as
+							return true
+						}
+						// v = v.add(x) / v = add(v, x): a helper of the package that returns its receiver or parameter, appended to
+						if fn := p.Callee(f.Pkg, c); fn != nil {
+							if h := p.FnOfObj(fn); h != nil && h.Short == "query" && h.Body() != nil {
+								passes := false
+								if se, ok := ast.Unparen(c.Fun).(*ast.SelectorExpr); ok && identObj(info, se.X) == o {
+									passes = true
+								}
+								for _, a := range c.Args {
+									if identObj(info, a) == o {
+										passes = true
+									}
+								}
+								appends := false
+								ast.Inspect(h.Body(), func(z ast.Node) bool {
+									if ret, ok := z.(*ast.ReturnStmt); ok && len(ret.Results) == 1 {
+										if ac, ok := ast.Unparen(ret.Results[0]).(*ast.CallExpr); ok && isBuiltin(h.Pkg.TypesInfo, ac, "append") {
+											appends = true
+										}
+									}
+									return true
+								})
+								if passes && appends {
+									filtered[o] = as
+								}
+							}
 						}
 						return true
 					})
@@ -106,36 +137,39 @@ func init() {
 						continue
 					}
 					n++
-					okAll := true
-					for _, ret := range rets {
-						handled := false
-						ast.Inspect(f.Body(), func(x ast.Node) bool {
-							ifs, ok := x.(*ast.IfStmt)
-							if !ok || ifs.End() > ret.Pos() || len(ifs.Body.List) == 0 {
-								return true
-							}
-							if _, ok := ifs.Body.List[len(ifs.Body.List)-1].(*ast.ReturnStmt); !ok {
-								return true
-							}
-							ast.Inspect(ifs.Cond, func(y ast.Node) bool {
-								be, ok := y.(*ast.BinaryExpr)
-								if !ok || be.Op != token.EQL {
-									return true
-								}
-								for _, pair := range [][2]ast.Expr{{be.X, be.Y}, {be.Y, be.X}} {
-									c, ok := ast.Unparen(pair[0]).(*ast.CallExpr)
-									if ok && isBuiltin(info, c, "len") && len(c.Args) == 1 && identObj(info, c.Args[0]) == o && isZeroLit(pair[1]) {
-										handled = true
-									}
-								}
-								return true
-							})
+					// the function looks at the length of the variable — `len(v) == 0`, `!= 0`, `> 0` … in a condition or in
+					// the definition of a boolean — and has a way out that returns something else
+					looks := false
+					ast.Inspect(f.Body(), func(x ast.Node) bool {
+						be, ok := x.(*ast.BinaryExpr)
+						if !ok {
 							return true
-						})
-						if !handled {
-							okAll = false
 						}
-					}
+						switch be.Op {
+						case token.EQL, token.NEQ, token.GTR, token.LSS, token.GEQ, token.LEQ:
+						default:
+							return true
+						}
+						for _, pair := range [][2]ast.Expr{{be.X, be.Y}, {be.Y, be.X}} {
+							c, ok := ast.Unparen(pair[0]).(*ast.CallExpr)
+							if ok && isBuiltin(info, c, "len") && len(c.Args) == 1 && identObj(info, c.Args[0]) == o {
+								if tv, ok := info.Types[pair[1]]; ok && tv.Value != nil && (tv.Value.String() == "0" || tv.Value.String() == "1") {
+									looks = true
+								}
+							}
+						}
+						return true
+					})
+					otherWay := false
+					inspectShallow(f.Body(), func(x ast.Node) bool {
+						if ret, ok := x.(*ast.ReturnStmt); ok && len(ret.Results) >= 1 {
+							if _, isLit := ast.Unparen(ret.Results[0]).(*ast.CompositeLit); isLit {
+								otherWay = true
+							}
+						}
+						return true
+					})
+					okAll := looks && otherWay
 					key := fmt.Sprintf("%s returns %s after leaving out impossible alternatives", f.Key(), o.Name())
 					r.Check(okAll, rule, key, p.Pos(at), "the empty result is replaced before it is returned", "alternatives that contradict themselves are left out of "+o.Name()+" and the set is returned as it is: when every alternative was left out the result is the EMPTY set, which means 'no restriction' — a query no stream can satisfy (`protocol:tcp protocol:udp`) is normalised to the query that matches every stream")
 				}
